@@ -9,19 +9,23 @@ PARTIAL = ['makePeriodic_is_merge / makePeriodic_equiv need the groups to form a
            'the averaging of prices over the minor steps and the first-minor-step sampling of capacities/discount are part of the BUILDERS with freq (SimpleContract, Transport, Storage): tied by the correspondence of extendMinor / makePeriodic on recorded calls and by the fine-plus-equalities oracle (windows inside the horizon only as whole numbers of coarse steps: a remainder is known finding F-19b), not by a builder theorem',
            'stepLabels is the literal model of the code\'s counters: like the code it counts the positions of a partial first period from the grid start, so for an anchored period (W) on a grid that does not start on the anchor model and code agree with each other but not with the statement (known finding F-13m; the oracle counts by the clock)',
            'the whole-horizon duration [tp[0], end + (end - tp[0])] of the repaired code (F-13l) is handed to the model as recorded boundaries like the date_range results; the model\'s own wholeDuration (tp[-1] + (tp[-1] - tp[0]), the line before the repair) is no longer used by the harness - it yields the same labels, also for a single step']
-COMPONENTS = ['makePeriodic on the problem without the option + step labels vs the real periodic problem (recorded calls of __make_periodic__)', 'extendMinor vs recorded calls of __extend_mapping_to_minor_grid__', 'step labels vs the label table the code builds']
+COMPONENTS = ['makePeriodic on the problem without the option + step labels vs the real periodic problem (recorded calls of __make_periodic__)', 'extendMinor vs recorded calls of __extend_mapping_to_minor_grid__', 'step labels vs the label table the code builds', 'price data handed to the set-up (in the drawn form) vs the same data made afresh: unchanged by the set-up']
 RULE = ('assets accepting the options (SimpleContract, Contract with takes, Transport, ExtendedTransport, Storage, MultiCommodityContract; one- and two-variable forms) with freq, periodicity [+ duration] or both, DST grids with 23/25-hour days; '
         'stream "window": coarse assets of every type whose window is a whole number of coarse steps and starts and/or ends strictly inside the horizon (at any grid point), '
         'with a price / costs_time_series that varies per step and has its own level before, in each coarse interval of, and after the window (takes cut at the asset\'s own coarse cuts); '
         'stream "tiny": every periodic asset type on grids with ONE step and with two steps, without and with a duration (fixed finding F-13l); '
         'stream "anchor" (probe): anchored period W on grids starting 0..6 days after the anchor, fine steps d/12h/6h, every type (known finding F-13m, kind anchored_period_lead); '
+        'forms of the price data (every stream): per series drawn among float64 / int64 / int32 array, list of floats / of ints, pandas Series (float / int) - as far as the unchanged code accepts the form for the use of the series (lists only as a contract\'s price) - '
+        'or all series together as a DataFrame (default index or indexed by the grid\'s time points, columns float64 / int64 / int32); a series in an integer form is whole-numbered (drawn values rounded), '
+        'its mean over a coarse interval in general is not; the reference works on its own float arrays and the data handed to the real code must be unchanged after the set-up; '
         'oracles: rate constant within each coarse interval, dispatch repeats at the same position of every period within a duration - positions counted by the clock from the begin of the period, '
         'also when the first period began before the grid -, optimal value = value of the fine problem with the equalities added explicitly (averaged data), '
         'and periodic_builds: a periodic asset (no coarse frequency, period boundaries of equal length) whose fine problem with the equalities exists must not raise in its set-up; '
         'non-trivial = option changes the problem and the value comparison ran; distinct by case hash')
 ASSUMPTIONS = ['values compared with tolerance 1e-6 relative',
+               'forms of the price data limited to those the unchanged code accepts (a list as a storage\'s price, a transport\'s cost series or a limit by name raises TypeError: not generated); a Storage price as column of a frame indexed by time points relies on pandas 2.x indexing a Series by position',
                'periodic_builds judges a raising set-up only for periodicity without freq and equally spaced period boundaries (unequal ones are rejected by the code on purpose); other raising set-ups are counted as a feature, not judged']
-EXPLANATION = 'generic merge_columns theorem + proof that the literal loop of __make_periodic__ is such a merge (aligned case) + weights of the minor-grid extension; correspondence on recorded calls; fine-plus-equalities oracle (also for windows strictly inside the horizon, where the averaged price of the first / last coarse interval must not see the steps outside)'
+EXPLANATION = 'generic merge_columns theorem + proof that the literal loop of __make_periodic__ is such a merge (aligned case) + weights of the minor-grid extension; correspondence on recorded calls; fine-plus-equalities oracle (also for windows strictly inside the horizon, where the averaged price of the first / last coarse interval must not see the steps outside; the averaged price is that of the NUMBERS given, whatever the form - integer array, list, Series, frame - in which they are handed in)'
 
 
 def scenarios(seed, tier):
@@ -59,4 +63,11 @@ def run_case(case, drv):
             v, feats = PE.oracle_builds(case, ir['with'])
             r['violations'] = v
             f += feats
+    # the data handed to the real code (in the form drawn for the case) must be what the case says also AFTER the set-up: the
+    # comparison with the reference (which has its own copies) presupposes it
+    for key in ('with', 'without_per'):
+        ch = (ir.get(key) or {}).get('input_changed')
+        if ch:
+            r['disagreements'].append({'component': 'periodic/input-data', 'detail': 'set-up (%s the option) altered the caller\'s price data: %s' % (
+                'with' if key == 'with' else 'without', ch)})
     return r
